@@ -10,7 +10,7 @@
    Verdict "ok" or (bad ...).  (spec <line>) judges the implementation's bytes by the reference reader
    (JsonRef) only, independently of the encoder models. *)
 From Coq Require Import List ZArith NArith Bool String.
-From Verif Require Import common.Sexp c12.Utf8 c12.JsonRef c12.Encode c12.CliEncode.
+From Verif Require Import common.Sexp c12.FastSexp c12.Utf8 c12.JsonRef c12.Encode c12.CliEncode.
 Import ListNotations.
 Open Scope N_scope.
 
@@ -24,8 +24,8 @@ Fixpoint dec_value (e : sexp) : option value :=
     if atom_is "i" t then match args with [Atom v] => option_map VInt (parse_Z v) | _ => None end
     else if atom_is "b" t then match args with [Atom v] => option_map VBig (parse_Z v) | _ => None end
     else if atom_is "f" t then match args with [Atom v] => option_map VFloat (parse_N v) | _ => None end
-    else if atom_is "l" t then match args with [Atom v] => option_map VLit (parse_hexs v) | _ => None end
-    else if atom_is "s" t then match args with [Atom v] => option_map VStr (parse_hexs v) | _ => None end
+    else if atom_is "l" t then match args with [Atom v] => option_map VLit (fparse_hexs v) | _ => None end
+    else if atom_is "s" t then match args with [Atom v] => option_map VStr (fparse_hexs v) | _ => None end
     else if atom_is "a" t then
       option_map VArr
         ((fix go (l : list sexp) : option (list value) :=
@@ -39,7 +39,7 @@ Fixpoint dec_value (e : sexp) : option value :=
             match l with
             | [] => Some []
             | SList [Atom k; x] :: r =>
-              match parse_hexs k, dec_value x, go r with
+              match fparse_hexs k, dec_value x, go r with
               | Some k, Some v, Some vs => Some ((k, v) :: vs)
               | _, _, _ => None
               end
@@ -78,7 +78,7 @@ Definition fnum_shape (e : bool) (x : fnum) : bool :=
 Fixpoint dec_oracle (l : list sexp) : list (N * (list N * list N)) :=
   match l with
   | SList [Atom b; Atom e; Atom f] :: r =>
-    match parse_N b, parse_hexs e, parse_hexs f with
+    match parse_N b, fparse_hexs e, fparse_hexs f with
     | Some b, Some e, Some f => (b, (e, f)) :: dec_oracle r
     | _, _, _ => dec_oracle r
     end
@@ -132,7 +132,7 @@ Definition dec_flag (f : flags) (e : sexp) : option flags :=
     else match e with
          | SList [k; Atom v] =>
            if atom_is "indent" k then match parse_Z v with Some z => upd c t (Some z) col r r0 j cs | None => None end
-           else if atom_is "colors" k then match parse_hexs v with Some s => upd c t i col r r0 j (Some s) | None => None end
+           else if atom_is "colors" k then match fparse_hexs v with Some s => upd c t i col r r0 j (Some s) | None => None end
            else None
          | _ => None
          end
@@ -148,7 +148,7 @@ Fixpoint dec_flags (f : flags) (l : list sexp) : option flags :=
 
 Definition dec_colors (e : sexp) : option (option ctable) :=
   if atom_is "default" e then Some (Some default_colors)
-  else match e with Atom h => match parse_hexs h with Some s => Some (set_colors s) | None => None end | _ => None end.
+  else match e with Atom h => match fparse_hexs h with Some s => Some (set_colors s) | None => None end | _ => None end.
 
 Definition with_oracle (orc : sexp) (v : value) (k : (N -> bool -> fnum) -> sexp) : sexp :=
   match orc with
@@ -203,7 +203,7 @@ Definition run_sexp (e : sexp) : sexp :=
     if atom_is "lib" k then
       match dec_value v, outc with
       | Some v, Atom out =>
-        match parse_hexs out with
+        match fparse_hexs out with
         | Some out =>
           with_oracle orc v (fun fmt =>
             if atom_is "marshal" mode || atom_is "tojson" mode || atom_is "atjson" mode then cmp_bytes (encode fmt v) out
@@ -222,7 +222,7 @@ Definition run_sexp (e : sexp) : sexp :=
             match cli_print fmt f v, outc with
             | Err, Atom _ => if atom_is "err" outc then A "ok" else SList [A "bad"; A "err"]
             | Out b, SList [t; Atom h] =>
-              match parse_hexs h with
+              match fparse_hexs h with
               | Some out => if atom_is "out" t then cmp_bytes b out else A "undecodable"
               | None => A "undecodable"
               end
@@ -236,7 +236,7 @@ Definition run_sexp (e : sexp) : sexp :=
     else A "undecodable"
   | SList [k; tab; Atom ind; noc; cols; v; Atom out; orc] =>
     if atom_is "cli" k then
-      match dec_bool tab, parse_Z ind, dec_bool noc, dec_colors cols, dec_value v, parse_hexs out with
+      match dec_bool tab, parse_Z ind, dec_bool noc, dec_colors cols, dec_value v, fparse_hexs out with
       | Some tab, Some ind, Some noc, Some (Some tbl), Some v, Some out =>
         with_oracle orc v (fun fmt =>
           cmp_bytes (cli_marshal fmt {| o_tab := tab; o_indent := ind; o_nocolor := noc; o_colors := tbl |} v) out)
@@ -253,7 +253,7 @@ Definition run_sexp (e : sexp) : sexp :=
     else A "undecodable"
   | SList [k; Atom t; iv] =>
     if atom_is "dec" k then
-      match parse_hexs t with
+      match fparse_hexs t with
       | Some t =>
         match json_decode t with
         | Some j =>
@@ -326,7 +326,7 @@ Definition spec_sexp (e : sexp) : sexp :=
   match e with
   | SList [k; mode; v; Atom out; orc] =>
     if atom_is "lib" k then
-      match dec_value v, parse_hexs out with
+      match dec_value v, fparse_hexs out with
       | Some v, Some out =>
         match v with
         | VStr s => if atom_is "tostring" mode || atom_is "attext" mode
@@ -335,10 +335,24 @@ Definition spec_sexp (e : sexp) : sexp :=
         end
       | _, _ => A "undecodable"
       end
-    else A "undecodable"
+    else A "ok"
+  | SList [k; SList fl; v; SList [t; Atom h]; orc] =>
+    if atom_is "run" k && atom_is "out" t then
+      match dec_flags no_flags fl, dec_value v, fparse_hexs h with
+      | Some f, Some v, Some out =>
+        let raw := f_raw f || f_raw0 f || f_join f in
+        let body := if f_raw0 f || negb (f_join f) then removelast out else out in
+        match v with
+        | VStr s => if raw then cmp_bytes s body
+                    else spec_json (Some (if f_tab f then 9 else 32, resolve_indent f)) v body
+        | _ => spec_json (Some (if f_tab f then 9 else 32, resolve_indent f)) v body
+        end
+      | _, _, _ => A "undecodable"
+      end
+    else A "ok"
   | SList [k; tab; Atom ind; noc; cols; v; Atom out; orc] =>
     if atom_is "cli" k then
-      match dec_bool tab, parse_Z ind, dec_value v, parse_hexs out with
+      match dec_bool tab, parse_Z ind, dec_value v, fparse_hexs out with
       | Some tab, Some ind, Some v, Some out => spec_json (Some (if tab then 9 else 32, ind)) v out
       | _, _, _, _ => A "undecodable"
       end
@@ -347,7 +361,7 @@ Definition spec_sexp (e : sexp) : sexp :=
   end.
 
 Definition run_line (l : list N) : list N :=
-  match parse l with
+  match fparse l with
   | Some (SList [k; e]) => if atom_is "spec" k then print (spec_sexp e) else print (run_sexp (SList [k; e]))
   | Some e => print (run_sexp e)
   | None => codes "unparsable"
